@@ -778,6 +778,7 @@ func runC09(c *Ctx) {
 		judge(c, p.kind, sp, runChild(c, sp, memLimitStr, 12*time.Second), p.want)
 	}
 	knownFindings(c)
+	defaultDepth(c)
 
 	// 2. depth correspondence
 	depthCorrespondence(c)
@@ -948,6 +949,53 @@ func knownFindings(c *Ctx) {
 		// return after the deadline takes seconds
 		sp = childSpec{Src: "func f(n){f(n+1)}; f(0)", MaxDepth: 150000, DurMs: 3000}
 		judge(c, "deep-stack-default-depth", sp, runChild(c, sp, memLimitStr, 120*time.Second), "")
+	}
+}
+
+// Recursion at the DEFAULT depth limit (MaxDepth = 0 in the options -> eval.DefaultMaxDepth = 150000).  Only State.Eval
+// counts depth; when each recursion level also passes through a direct evalInternal call (array element, loop body, call
+// argument, if branch, return operand, builtin argument) it uses more Go stack per counted level and the 1 GB Go stack
+// limit is hit before the guard: a fatal error instead of the recoverable panic.  Two families of kinds so that the
+// recorded finding stays narrow: "default-depth-direct-<shape>" (known finding) and "default-depth-eval-<shape>"
+// (every frame of the level is a counted Eval: the guard must fire; a stack overflow there is a new defect).
+func defaultDepthShapes(thorough bool) (direct, evalOnly []prog) {
+	direct = []prog{
+		{"default-depth-direct-array", "f=func(n){[f(n+1)]};f(0)", ""},
+		{"default-depth-direct-loop-count", "f=func(n){for i=1 {f(n+1)}};f(0)", ""},
+	}
+	evalOnly = []prog{
+		{"default-depth-eval-plain", "f=func(n){f(n+1)};f(0)", "depth"},
+		{"default-depth-eval-infix", "f=func(n){1+f(n+1)};f(0)", "depth"},
+	}
+	if thorough {
+		direct = append(direct, []prog{
+			{"default-depth-direct-call-arg", "g=func(x){x};f=func(n){g(f(n+1))};f(0)", ""},
+			{"default-depth-direct-if", "f=func(n){if n>=0 {f(n+1)} else {0}};f(0)", ""},
+			{"default-depth-direct-if3", "f=func(n){if true {if true {if true {f(n+1)}}}};f(0)", ""},
+			{"default-depth-direct-return", "f=func(n){return f(n+1)};f(0)", ""},
+			{"default-depth-direct-builtin-arg", "f=func(n){len([f(n+1)])};f(0)", ""},
+			{"default-depth-direct-loop-list", "f=func(n){for x=[1] {f(n+1)}};f(0)", ""},
+			{"default-depth-direct-loop-cond", "f=func(n){for true {return f(n+1)}};f(0)", ""},
+			{"default-depth-direct-catch", "f=func(n){catch(f(n+1))};f(0)", ""},
+			{"default-depth-direct-mutual", "f=func(n){[g(n+1)]};g=func(n){if true {f(n+1)}};f(0)", ""},
+			{"default-depth-direct-closure", "func mk(k){ func(){ [mk(k+1)()] } }; mk(0)()", ""},
+		}...)
+		evalOnly = append(evalOnly, []prog{
+			{"default-depth-eval-assign", "f=func(n){x=f(n+1)};f(0)", "depth"},
+			{"default-depth-eval-prefix", "f=func(n){-f(n+1)};f(0)", "depth"},
+			{"default-depth-eval-map-value", "f=func(n){{1:f(n+1)}};f(0)", "depth"},
+			{"default-depth-eval-index", "f=func(n){[0,1][f(n+1)]};f(0)", "depth"},
+			{"default-depth-eval-mutual", "f=func(n){1+g(n+1)};g=func(n){x=f(n+1)};f(0)", "depth"},
+		}...)
+	}
+	return
+}
+
+func defaultDepth(c *Ctx) {
+	direct, evalOnly := defaultDepthShapes(c.Thorough())
+	for _, p := range append(direct, evalOnly...) {
+		sp := childSpec{Src: p.src, MaxDepth: 0, DurMs: 60000}
+		judge(c, p.kind, sp, runChild(c, sp, "4GiB", 90*time.Second), p.want)
 	}
 }
 
